@@ -398,7 +398,7 @@ REPEAT_CODE = r'''
 import sys, json, hashlib, logging
 logging.disable(logging.CRITICAL)
 import numpy as np, andes
-ss = andes.load(sys.argv[1], no_output=True, default_config=True, config_option=["TDS.sparselib=%s" % sys.argv[3], "PFlow.sparselib=%s" % sys.argv[3], "TDS.no_tqdm=1", "System.seed=20260923"])
+ss = andes.load(sys.argv[1], no_output=True, default_config=True, config_option=["TDS.sparselib=%s" % sys.argv[3], "PFlow.sparselib=%s" % sys.argv[3], "TDS.no_tqdm=1", "System.seed=20260923"], autogen_stale=False)
 ss.PFlow.run()
 ss.TDS.config.tf = float(sys.argv[2])
 ss.TDS.run()
